@@ -304,3 +304,53 @@ func nullify(doc []byte, r *plan.Rng) []byte {
 	}
 	return append(out, doc[pos:]...)
 }
+
+// reshape parses a document generically (numbers kept as text) and writes it
+// back with every array stretched to several times its length (stretch) or
+// with array elements and member values replaced by null here and there
+// (nulls): documents of the same shape as an earlier one whose content
+// differs, for the scratch space decoders keep between calls.
+func reshape(doc []byte, r *plan.Rng, stretch bool, nulls bool) []byte {
+	dec := json.NewDecoder(bytes.NewReader(doc))
+	dec.UseNumber()
+	var v interface{}
+	if err := dec.Decode(&v); err != nil {
+		return doc
+	}
+	var walk func(x interface{}, inArray bool, depth int) interface{}
+	walk = func(x interface{}, inArray bool, depth int) interface{} {
+		switch t := x.(type) {
+		case []interface{}:
+			out := make([]interface{}, 0, len(t)*3)
+			reps := 1
+			if stretch && len(t) > 0 && depth < 3 {
+				reps = r.Range(2, 5)
+			}
+			for k := 0; k < reps; k++ {
+				for _, e := range t {
+					out = append(out, walk(e, true, depth+1))
+				}
+			}
+			return out
+		case map[string]interface{}:
+			for k, e := range t {
+				t[k] = walk(e, false, depth+1)
+			}
+			if nulls && inArray && r.Chance(1, 4) {
+				return nil
+			}
+			return t
+		default:
+			if nulls && ((inArray && r.Chance(1, 2)) || (!inArray && r.Chance(1, 6))) {
+				return nil
+			}
+			return x
+		}
+	}
+	v = walk(v, false, 0)
+	out, err := json.Marshal(v)
+	if err != nil {
+		return doc
+	}
+	return out
+}
